@@ -329,6 +329,41 @@ func toIntV(v value) value {
 	return int(asInt64(v))
 }
 
+// lookupIte answers a lookup with a symbolic scalar key in a map whose keys
+// are concrete and whose values are scalars as an if-then-else chain, so
+// that table lookups (level tables) do not fork.
+func (fr *frame) lookupIte(instr *ssa.Lookup, m *omap, idx value) (value, bool) {
+	k, ok := idx.(sv)
+	if !ok || m == nil || m.symKeys || len(m.ents) == 0 || len(m.ents) > 64 {
+		return nil, false
+	}
+	et := instr.X.Type().Underlying().(*types.Map).Elem()
+	eb, ok := et.Underlying().(*types.Basic)
+	if !ok || eb.Info()&(types.IsInteger|types.IsBoolean) == 0 {
+		return nil, false
+	}
+	tt := k.T.tt
+	w, _ := kindInfo(eb.Kind())
+	val := tt.Const(w, 0)
+	found := tt.Bool(false)
+	for j := len(m.ents) - 1; j >= 0; j-- {
+		e := m.ents[j]
+		if isSym(e.key) {
+			return nil, false
+		}
+		kt, _ := lift(tt, e.key)
+		c := tt.Eq(k.T, kt)
+		vt, _ := lift(tt, e.val)
+		val = tt.Ite(c, vt, val)
+		found = tt.Or(c, found)
+	}
+	v := norm(val, eb.Kind())
+	if instr.CommaOk {
+		return tuple{v, norm(found, types.Bool)}, true
+	}
+	return v, true
+}
+
 // rtErr builds a runtime.Error-like value for target-level run-time panics.
 func rtErr(msg string) value {
 	return iface{t: theRuntimeErrorString, v: msg}
@@ -364,6 +399,9 @@ func (fr *frame) index(idx value, n int) int {
 func (fr *frame) lookup(instr *ssa.Lookup, x, idx value) value {
 	switch x := x.(type) { // map or string
 	case *omap:
+		if r, ok := fr.lookupIte(instr, x, idx); ok {
+			return r
+		}
 		var v value
 		e := x.find(fr.i, idx)
 		ok := e != nil
@@ -1058,7 +1096,10 @@ func callBuiltin(caller *frame, callpos token.Pos, fn *ssa.Builtin, args []value
 				m.symKeys = false
 			}
 		case []value:
-			panic(engineError{"clear(slice) not supported"})
+			et := fn.Type().(*types.Signature).Params().At(0).Type().Underlying().(*types.Slice).Elem()
+			for k := range m {
+				m[k] = zero(et)
+			}
 		}
 		return nil
 
